@@ -1873,6 +1873,23 @@ func (in *interp) evalCall(call *ast.CallExpr, st *state) []AV {
 			return []AV{avInt{int64(len(sv.s))}}
 		}
 	}
+	if (name == "builtin.min" || name == "builtin.max") && len(args) >= 1 {
+		all := true
+		var best int64
+		for i, a := range args {
+			iv, ok := a.(avInt)
+			if !ok {
+				all = false
+				break
+			}
+			if i == 0 || (name == "builtin.min" && iv.v < best) || (name == "builtin.max" && iv.v > best) {
+				best = iv.v
+			}
+		}
+		if all {
+			return []AV{avInt{best}}
+		}
+	}
 	if f, ok := in.intrinsics[name]; ok {
 		if res, ok := f(in, st, call, recv, args); ok {
 			return res
